@@ -66,6 +66,8 @@ C["words"] = ("r", """
             && (forall|i: int| 0 <= i < n ==> #[trigger] ws@[i] == le32(old(self).bytes@, old(self).offset + 4 * i))
             && (old(self).limit matches Some(l) ==> (l >= n && final(self).limit == Some((l - n) as usize)))
             && (old(self).limit is None ==> final(self).limit is None)),
+        // without a limit: success iff all n words lie inside the buffer
+        old(self).limit is None ==> ((r is Ok) <==> old(self).offset + 4 * n <= old(self).bytes@.len()),
         final(self).offset >= old(self).offset,
         old(self).limit matches Some(l) ==> (final(self).limit matches Some(l2) && l2 <= l
             && (final(self).offset - old(self).offset) <= 4 * (l - l2)),
@@ -376,6 +378,43 @@ def build(tier="quick", must_fail=False):
     g.raw("} // verus!")
     g.raw("fn main() {}")
     return g
+
+
+def emit_stubs(g):
+    """`mod decoder` with every Decoder method contract-only (external_body), same contracts as this
+    unit proves on the real bodies — for units that call the decoder (parser_core)."""
+    g.raw("pub mod autogen_error {\nuse vstd::prelude::*;\nuse crate::spirv;")
+    emit_error_enum(g)
+    g.raw("}")
+    g.raw("pub use self::autogen_error::Error as DecodeError;")
+    g.raw("pub mod decoder {")
+    g.raw("use vstd::prelude::*;\nuse crate::spirv;\nuse super::DecodeError as Error;\nuse std::result;")
+    src = Source.get(DEC)
+    g.emit(Piece(src.find("type", "Result")), name="decoder::Result", under_contract=False)
+    g.raw("pub open spec fn le32(b: Seq<u8>, i: int) -> u32 {\n"
+          "    ((b[i] as u32) | ((b[i + 1] as u32) << 8) | ((b[i + 2] as u32) << 16) | ((b[i + 3] as u32) << 24)) as u32\n}\n"
+          "pub uninterp spec fn utf8_of(s: String) -> Seq<u8>;")
+    st = Piece(src.find("struct", "Decoder"))
+    st.sub(r"(\n\s*)(bytes|offset|limit):", r"\1pub \2:", "R15", count=3)
+    g.emit(st, name="decoder::Decoder", under_contract=False)
+    g.raw("impl<'a> Decoder<'a> {\n    pub open spec fn wf(&self) -> bool { self.offset <= self.bytes@.len() && self.bytes@.len() <= isize::MAX }\n}")
+    g.raw("// contracts discharged on the real bodies by unit decoder")
+    hdrs = {"new": "impl<'a> Decoder<'a>", "offset": "impl<'a> Decoder<'a>", "word": "impl<'a> Decoder<'a>", "words": "impl<'a> Decoder<'a>"}
+    for name in ("new", "offset", "set_limit", "clear_limit", "has_limit", "limit_reached", "word", "words", "id", "bit32",
+                 "ext_inst_integer", "bit64", "string"):
+        f = src.find("fn", "Decoder::" + name)
+        sig = f.core_text[:f.body_open - f.head_start].rstrip()
+        rname, contract = C[name]
+        if rname:
+            sig = re.sub(r"->\s*(.+)$", lambda m: "-> (%s: %s)" % (rname, m.group(1).strip()), sig, flags=re.S)
+        g.raw("%s {\n#[verifier::external_body]\n%s\n%s\n{ unimplemented!() }\n}" % (hdrs.get(name, "impl Decoder<'_>"), sig, contract.strip("\n")))
+    g.raw("impl Decoder<'_> {")
+    for f, T, is_mask, errvar in typed_requests():
+        sig = f.core_text[:f.body_open - f.head_start].rstrip()
+        sig = re.sub(r"->\s*(.+)$", lambda m: "-> (r: %s)" % m.group(1).strip(), sig, flags=re.S)
+        g.raw("#[verifier::external_body]\n%s\n%s\n{ unimplemented!() }" % (sig, typed_contract(T, is_mask, errvar).strip("\n")))
+    g.raw("}")
+    g.raw("} // mod decoder")
 
 
 def describe():
